@@ -13,7 +13,15 @@ ALPHABETS = ['A1', 'A2', 'A3', 'A4', 'A5', 'A6', 'A7', 'A8', 'A9']
 
 # classes of input on which the implementation is recorded to deviate (known_findings.json); decided by the specification (tags)
 FINDING_TAGS = {'lazy-after-nonpara', 'lazy-after-indented-quote-content', 'lazy-line-looks-like-setext-underline', 'setext-in-quote',
-                'blank-line-in-open-fence-in-item'}
+                'blank-line-in-open-fence-in-item', 'lazy-indented-line-looks-like-block-start'}
+
+
+# classes the specification text does not settle (both readings admitted, DESIGN.md 1.4.1): such documents are not judged
+UNSETTLED_TAGS = {'unsettled-lazy-or-list'}
+
+
+def settled(docs):
+    return [d for d in docs if not (set(d['tags']) & UNSETTLED_TAGS)]
 
 
 def alphabet_size(cfg):
@@ -47,4 +55,27 @@ def documents(ck, depth):
         raise core.MachineryError('BlockParse.tla exported only %d documents' % len(docs))
     ck.extra['blockparse_documents'] = len(docs)
     ck.extra['blockparse_alphabets'] = len(ALPHABETS)
+    docs = docs + [d for d in simulate(ck, 600 if depth <= 3 else 20000) if d['src'] not in seen]
+    ck.extra['blockparse_unsettled_documents_not_judged'] = len(docs) - len(settled(docs))
+    return settled(docs)
+
+
+def simulate(ck, num, depth=9):
+    """Random documents of up to `depth` lines over the union of the alphabets (every prefix of a behaviour is a document)."""
+    procs = min(core.NCPU, max(1, num // 100))
+    per = max(1, num // procs)
+
+    def one(i):
+        return core.tlc('BlockParse', 'BlockParseSim.cfg', workers=1, env={'SHARD': '-'}, timeout=3000, heap='2g',
+                        extra=['-simulate', 'num=%d' % per, '-depth', str(depth), '-seed', str(ck.seed * 1000 + i + 1)])
+    with ThreadPoolExecutor(max_workers=core.NCPU) as ex:
+        results = list(ex.map(one, range(procs)))
+    docs, seen = [], set()
+    for r in results:
+        ck.add_tlc(r)
+        for d in r.printed_json():
+            if d['src'] not in seen:
+                seen.add(d['src'])
+                docs.append(d)
+    ck.extra['blockparse_simulated_documents'] = len(docs)
     return docs
